@@ -354,6 +354,14 @@ def run(rec, shard, nshards, t):
                 rf.rules.insert(0, R.Rule('SuffixGone', rnd.choice(['regex("STARBUCKS$") or regex("costco$")', 'description == "STARBUCKS" or description == "COSTCO"',
                                                                    'startswith("STAR bucks REF")']), 'SuffixGone', 'x'))
                 rec.count('files_with_a_case_differing_suffix_transform')
+            if rnd.random() < .12:
+                # a transform that is NOT idempotent (it drops the first word - a payment processor's prefix): it is applied once; a rule that is true of the
+                # once-transformed text comes first, one that is true of the twice-transformed text later
+                rf.transforms = list(rf.transforms) + [('field.description', rnd.choice(['regex_replace(field.description, "^\\\\S+\\\\s+", "")',
+                                                                                         'regex_replace(field.description, "^[A-Z]{2,6} ?\\\\*? ?", "")']))]
+                rf.rules.insert(0, R.Rule('OnceStripped', rnd.choice(['startswith("EATS") or startswith("Mktp") or startswith("whole")', 'startswith("*STAR") or startswith("STAR")',
+                                                                     'regex("^(EATS|TRIP|GAS|FOODS|PRIME|STORE)")']), 'Once', 'x'))
+                rec.count('files_with_a_transform_that_is_not_idempotent')
             if rnd.random() < .15:
                 # normalized() ignores every kind of blank (no-break, thin, ideographic space too), hyphens, apostrophes, dots and asterisks
                 rf.rules.insert(rnd.randint(0, len(rf.rules)), R.Rule('NormFirst', rnd.choice(['normalized("UBEREATS")', 'normalized("WHOLEFOODSMKT")', 'normalized("whole foods")',
